@@ -21,8 +21,8 @@ POSITIONS = ['cmd_arg', 'cmd_env', 'str_env', 'step_arg', 'step_env', 'test_arg'
              'test_env', 'drv_arg', 'copt_list', 'copt_str', 'lopt_list',
              'lopt_str', 'define', 'gopt', 'glopt', 'tool_word', 'cmd_word',
              'file_arg', 'sym_arg',
-             'incdir']
-PATHLIKE = ('cmd_word', 'file_arg', 'incdir', 'sym_arg')
+             'incdir', 'dep_link', 'symgen_arg']
+PATHLIKE = ('cmd_word', 'file_arg', 'incdir', 'sym_arg', 'symgen_arg')
 GLOBAL = ('gopt', 'glopt')
 # an argument inside the compiler command taken from $CC (one project each)
 SINGLE = ('tool_word',)
@@ -35,7 +35,7 @@ def word_ok(pos, w):
             return False
         if pos == 'cmd_word' and w.endswith(' '):
             pass
-    if pos == 'sym_arg':
+    if pos in ('sym_arg', 'symgen_arg'):
         # the file becomes a prerequisite of a rule: names outside the
         # characters below are C04's subject (and partly its known findings)
         if not all(c.isalnum() or c in ' $@+._-' for c in w) or \
@@ -217,6 +217,23 @@ def write_project(root, slots, backend):
             L.append("copy_file(%r, source_file(%r), mode='symlink', "
                      "description='link it')" % ('l' + i, 'sy/' + w))
             targets.append('l' + i)
+        elif s.pos == 'symgen_arg':
+            # the same for a file made by a step of the build
+            L.append("_g = build_step(%r, cmd=[R, %r])" % ('G' + w, 'g' + i))
+            L.append("copy_file(%r, _g, mode='symlink')" % ('l' + i,))
+            targets.append('l' + i)
+        elif s.pos == 'dep_link':
+            # a program with link options of its own that links to a shared
+            # library declared WITHOUT options; only the program is a goal,
+            # so the library is built on the program's behalf.  The slot's
+            # event is about the library's link step: it receives nothing of
+            # what was declared for the program.
+            open(os.path.join(src, 's%s.c' % i), 'w').close()
+            open(os.path.join(src, 'd%s.c' % i), 'w').close()
+            L.append("_d = shared_library(%r, [%r])" % ('D' + i, 'd%s.c' % i))
+            L.append("executable(%r, [%r], libs=[_d], link_options=%r)" % (
+                'p' + i, 's%s.c' % i, ['-DVB=' + i, w, '-DVE=' + i]))
+            targets.append('p' + i)
         elif s.pos == 'incdir':
             os.makedirs(os.path.join(src, 'idir', w), exist_ok=True)
             open(os.path.join(src, 's%s.c' % i), 'w').close()
@@ -415,6 +432,33 @@ def run_project(slots, backend, ninja=None):
                         ev['delivered'] = ([syms(x) for x in b]
                                            if b is not None else
                                            [syms('<<markers lost>>')])
+            elif s.pos == 'symgen_arg':
+                rs = byid.get('l' + i, [])
+                ev['declared'] = [syms(os.path.join(
+                    os.path.realpath(bld), 'G' + w))]
+                if rs:
+                    ev['started'] = True
+                    ev['delivered'] = [syms(os.path.normpath(os.path.join(
+                        os.path.realpath(rs[0]['cwd']), x)))
+                        for x in rs[0]['argv'][3:-1]]
+            elif s.pos == 'dep_link':
+                ev['declared'] = []
+                own = 'libD%s.so' % i
+                rs = [r for r in links if '-o' in r['argv'] and
+                      os.path.basename(r['argv'][r['argv'].index('-o') + 1])
+                      == own]
+                if rs:
+                    ev['started'] = True
+                    a = rs[0]['argv']
+                    o = a.index('-o')
+                    b = between(a, '-DVB=' + i, '-DVE=' + i)
+                    leak = ['-DVB=' + i] + b + ['-DVE=' + i] \
+                        if b is not None else \
+                        [x for x in a if x in ('-DVB=' + i, '-DVE=' + i)]
+                    # ... nor the program's libraries (the library itself)
+                    leak += [x for k, x in enumerate(a) if k != o + 1 and
+                             os.path.basename(x) == own]
+                    ev['delivered'] = [syms(x) for x in leak]
             elif s.pos == 'tool_word':
                 rs = [r for r in compiles if ('-DVB=' + i) in r['argv']]
                 if rs:
